@@ -433,6 +433,34 @@ pub fn emit_catalogue(cat: &Catalogue) -> String {
     emit_roots(cat, &all)
 }
 
+/// The names of the 4096-variant unit enum: `v` + three letters over a..p (after `lowercase`).
+pub fn wide_names() -> Vec<String> {
+    let l = b"abcdefghijklmnop";
+    let mut v = vec![];
+    for a in l {
+        for b in l {
+            for c in l {
+                v.push(format!("v{}{}{}", *a as char, *b as char, *c as char));
+            }
+        }
+    }
+    v
+}
+
+/// A unit-only enum with 4096 variants and a probe that says which variant (if any) a string
+/// selects, with an error type that records nothing (C10, names as a language).
+pub fn emit_wide_names() -> String {
+    let mut out = String::new();
+    out.push_str("\n#[derive(Debug, Deserr, Clone, Copy, PartialEq, Eq)]\n#[deserr(rename_all = lowercase)]\npub enum WideNames {\n");
+    for n in wide_names() {
+        let mut cs = n.chars();
+        let first = cs.next().unwrap().to_ascii_uppercase();
+        let _ = writeln!(out, "    {first}{},", cs.as_str());
+    }
+    out.push_str("}\n\n/// index of the selected variant, or None if the string is refused\npub fn wide_names_probe(s: &str) -> Option<usize> {\n    deserr::deserialize::<WideNames, ::serde_json::Value, Cheap>(::serde_json::Value::String(s.to_string())).ok().map(|v| v as usize)\n}\n");
+    out
+}
+
 /// Emits shard `k` of `n`: roots with index ≡ k (mod n) and the items they reach.
 pub fn emit_catalogue_shard(cat: &Catalogue, k: usize, n: usize) -> String {
     let roots: Vec<usize> = (0..cat.roots.len()).filter(|i| i % n == k).collect();
